@@ -159,7 +159,7 @@ Lemma mu_norm' a : wf a ->
   exists j, norm' a = Ok j /\ wf j /\ (forall x, mu j x = mu a x) /\ (forall m, In m (mounts j) <-> In m (mounts a)).
 Proof.
   intros W. unfold norm'. destruct (is_normalized a).
-  - exists a. repeat split; auto.
+  - exists a. split; [reflexivity|]. split; [exact W|]. split; [reflexivity|]. intros m. tauto.
   - destruct (norm_spec a W) as (n & E & Wn & _ & _ & _ & H1 & H2 & H3 & H4).
     exists n. split; [exact E|]. split; [exact Wn|]. split; [|exact H4]. intros [| |m]; simpl; auto.
 Qed.
